@@ -11,4 +11,4 @@ for f in json.load(open('/verif/known-findings.json'))["findings"]:
     consts["KF_"+f["id"].upper()] = (f["status"]=="known")
 stage.stage("dev", consts)
 PY
-cd $d && ( CARGO_NET_OFFLINE=true timeout $t cargo kani --target-dir $d-target --harness "$h" --output-format terse "$@" 2>&1 | grep -v "^$" | grep -E "^error|^  -->|Thread|Checking harness|VERIFICATION|failed|Failed|File:|cover|Verification Time|CBMC|unwind|panicked|Status|Complete" | grep -v "register_tool" | tail -60 ); echo "exit=$?"
+cd $d && ( CARGO_NET_OFFLINE=true timeout $t cargo kani --target-dir $d-target --harness "$h" --output-format terse --no-assertion-reach-checks "$@" 2>&1 | grep -v "^$" | grep -E "^error|^  -->|Thread|Checking harness|VERIFICATION|failed|Failed|File:|cover|Verification Time|CBMC|unwind|panicked|Status|Complete" | grep -v "register_tool" | tail -60 ); echo "exit=$?"
